@@ -190,6 +190,7 @@ type Obligation struct {
 	Cond    string
 	Trail   []int
 	Details string
+	Q       []*Term // the query of an instance whose witness search was skipped (cleared after the job)
 }
 
 // Machine: per-path interpreter state.
